@@ -94,6 +94,24 @@ func (n *verifNodeSim) doMulti(multi []Completed) []RedisResult {
 	return rs
 }
 
+type verifSlotOwner struct {
+	slot  uint16
+	owner conn
+}
+
+var verifPendingSlots []verifSlotOwner
+
+// override of (*clusterClient).refresh for C20: the refreshed topology assigns the pending slots
+func verifRefreshFill(c *clusterClient, ctx context.Context) error {
+	c.mu.Lock()
+	for _, p := range verifPendingSlots {
+		c.wslots[p.slot] = p.owner
+	}
+	c.mu.Unlock()
+	verifPendingSlots = nil
+	return nil
+}
+
 func VerifC20_batch() {
 	a := &verifNodeSim{name: "a:1", other: "b:1", fate: map[string]int{}, isSource: true, slotState: -1}
 	b := &verifNodeSim{name: "b:1", other: "a:1", fate: map[string]int{}}
@@ -125,15 +143,27 @@ func VerifC20_batch() {
 			multi = append(multi, bd.Set().Key(tag+strconv.Itoa(i)).Value(strconv.Itoa(i)).Build().Pin())
 		}
 	}
+	// the cached slot map may have a hole for the batch's slots (failover, resharding, an
+	// incomplete CLUSTER SLOTS reply): the first pick fails, the client refreshes (the refresh is
+	// overridden by verifRefreshFill, which installs the slots) and picks again
+	gap := verifChoose(2) == 1
+	verifPendingSlots = nil
 	for _, m := range multi {
 		ids = append(ids, strings.Join(m.Commands(), " "))
 		if s := m.Slot(); s != cmds.InitSlot {
+			owner := conn(ca)
 			if strings.Contains(m.Commands()[1], "{t}") {
-				c.wslots[s] = cb
+				owner = cb
+			}
+			if gap {
+				verifPendingSlots = append(verifPendingSlots, verifSlotOwner{s, owner})
 			} else {
-				c.wslots[s] = ca
+				c.wslots[s] = owner
 			}
 		}
+	}
+	if gap {
+		verifReach("gap")
 	}
 	results := c.DoMulti(context.Background(), multi...)
 	verifAssert(len(results) == len(multi), "one result per command")
